@@ -259,7 +259,7 @@ Lemma WakeG_only_le id m m' st owed : mode_le m m' -> WakeG (only id m) st owed 
 Proof. intros L. apply WakeG_weaken. now apply only_le. Qed.
 
 Lemma register_ack_link o pkid o' ok : register_ack o pkid = (o', ok) -> o_link o' = o_link o.
-Proof. unfold register_ack. intros H. destruct (o_inflight o) as [| [[h x] y] r]; inv_ok; reflexivity. Qed.
+Proof. unfold register_ack. intros H. destruct (o_inflight o) as [| [[h x] y] r]; [| destruct (pkid =? h)]; inv_ok; reflexivity. Qed.
 
 Lemma get_obuf_some st id o : get_obuf st id = Ok o -> slab_get (r_obufs st) id = Some o.
 Proof. unfold get_obuf. destruct (slab_get (r_obufs st) id); intros H; inv_ok; [reflexivity | discriminate]. Qed.
@@ -340,7 +340,7 @@ Proof.
     apply bind_ok in H as (o & Ho & H). apply get_obuf_some in Ho.
     destruct (register_pubcomp o pkid) as [o' ok] eqn:ER.
     assert (EO : o_link o' = o_link o /\ o_inflight o' = o_inflight o).
-    { unfold register_pubcomp in ER. destruct (o_pubrels o); inv_ok; auto. }
+    { unfold register_pubcomp in ER. destruct (o_pubrels o) as [| h0 r0]; [| destruct (pkid =? h0)]; inv_ok; auto. }
     destruct EO as [EL EI].
     assert (W1 : WakeG (only id (mode_of fl)) (put_obuf st id o') owed)
       by (eapply put_obuf_wake; eauto; now rewrite EI).
